@@ -77,7 +77,12 @@ func runTestCasesForServer(
 		results.failedToStart(testCases, fmt.Errorf("error starting server: %w", err))
 		return
 	}
-	defer serverProcess.abort()
+	defer func() {
+		// However this function is left, the server process must be gone before
+		// the caller releases its --max-servers slot (or ends the run).
+		serverProcess.abort()
+		_ = serverProcess.result()
+	}()
 	serverProcess.whenDone(func(_ error) {
 		procCancel()
 	})
